@@ -35,16 +35,39 @@ struct MObs {
     limit: u64,
     members: Vec<(u64, u32)>,
     has: Vec<(u64, Option<bool>)>,
+    member: Vec<(u64, Option<u64>)>,
+    can: Vec<(u64, Option<bool>)>,
+    admins: (Vec<u64>, bool),
     ledger: Ledger,
+}
+fn member_query(w: &World, a: u64) -> Option<u64> {
+    let v = w.query(&json!({"member": {"member": name(a)}})).ok()?;
+    if v["address"].as_str() != Some(name(a).as_str()) {
+        return Some(u64::MAX);
+    }
+    v["mint_count"].as_u64()
+}
+fn coq_rnums(v: &[(u64, Option<u64>)]) -> String {
+    coq_list(&v.iter().map(|(a, r)| format!("({}, {})", a, match r { Some(c) => format!("Ok {}", c), None => "Err".to_string() })).collect::<Vec<_>>())
+}
+const SENDER_PROBES: [u64; 4] = [60, 61, 62, 50];
+fn coq_rbools(v: &[(u64, Option<bool>)]) -> String {
+    coq_list(&v.iter().map(|(a, r)| format!("({}, {})", a, rb(r))).collect::<Vec<_>>())
+}
+fn coq_admins(a: &(Vec<u64>, bool)) -> String {
+    format!("({}, {})", coq_ns(&a.0), coq_bool(a.1))
 }
 impl MObs {
     fn coq(&self) -> String {
         format!(
-            "(mkMobs {} {} {} {} {})",
+            "(mkMobs {} {} {} {} {} {} {} {})",
             self.num,
             self.limit,
             coq_pairs(&self.members),
-            coq_list(&self.has.iter().map(|(a, r)| format!("({}, {})", a, rb(r))).collect::<Vec<_>>()),
+            coq_rbools(&self.has),
+            coq_rnums(&self.member),
+            coq_rbools(&self.can),
+            coq_admins(&self.admins),
             coq_ledger(&self.ledger)
         )
     }
@@ -59,6 +82,9 @@ fn observe_pf(w: &World, probes: &[u64]) -> MObs {
         limit: c["member_limit"].as_u64().unwrap_or(u64::MAX),
         members: w.members_all(None).unwrap_or_default(),
         has: probes.iter().map(|a| (*a, has_member(w, *a))).collect(),
+        member: probes.iter().map(|a| (*a, member_query(w, *a))).collect(),
+        can: SENDER_PROBES.iter().map(|a| (*a, w.can_execute(*a))).collect(),
+        admins: w.admin_list(),
         ledger: w.ledger(),
     }
 }
@@ -72,29 +98,63 @@ struct TObs {
     beyond: Vec<(u64, u32)>,
     probe: Vec<(u64, u64, Option<bool>)>,
     has: Vec<(u64, Option<bool>)>,
+    /// AllStageMemberInfo { member }: (stage_id, is_member, per_address_limit) per stage
+    all: Vec<(u64, Option<Vec<(u64, bool, u64)>>)>,
+    member: Vec<(u64, Option<u64>)>,
+    /// first stage whose window contains the block time (from the Stages query); harness only
+    active: Option<u64>,
+    stage_beyond_ok: bool,
+    can: Vec<(u64, Option<bool>)>,
+    admins: (Vec<u64>, bool),
     ledger: Ledger,
 }
 impl TObs {
     fn coq(&self) -> String {
         format!(
-            "(mkTobs {} {} {} {} {} {} {} {})",
+            "(mkTobs {} {} {} {} {} {} {} {} {} {} {} {} {})",
             self.num,
             self.limit,
             self.nstages,
             coq_list(&self.stages.iter().map(|(c, ms)| format!("({}, {})", c, coq_pairs(ms))).collect::<Vec<_>>()),
             coq_pairs(&self.beyond),
             coq_list(&self.probe.iter().map(|(k, a, r)| format!("({}, {}, {})", k, a, rb(r))).collect::<Vec<_>>()),
-            coq_list(&self.has.iter().map(|(a, r)| format!("({}, {})", a, rb(r))).collect::<Vec<_>>()),
+            coq_rbools(&self.has),
+            coq_list(
+                &self
+                    .all
+                    .iter()
+                    .map(|(a, r)| match r {
+                        Some(l) => format!("({}, Ok {})", a, coq_list(&l.iter().map(|(k, b, p)| format!("({}, {}, {})", k, coq_bool(*b), p)).collect::<Vec<_>>())),
+                        None => format!("({}, Err)", a),
+                    })
+                    .collect::<Vec<_>>()
+            ),
+            coq_rnums(&self.member),
+            coq_bool(self.stage_beyond_ok),
+            coq_rbools(&self.can),
+            coq_admins(&self.admins),
             coq_ledger(&self.ledger)
         )
     }
 }
+fn all_stage_member_info(w: &World, a: u64) -> Option<Vec<(u64, bool, u64)>> {
+    let v = w.query(&json!({"all_stage_member_info": {"member": name(a)}})).ok()?;
+    Some(
+        v["all_stage_member_info"]
+            .as_array()?
+            .iter()
+            .map(|e| (e["stage_id"].as_u64().unwrap_or(u64::MAX), e["is_member"].as_bool().unwrap_or(false), e["per_address_limit"].as_u64().unwrap_or(u64::MAX)))
+            .collect(),
+    )
+}
 fn observe_t(w: &World, probes: &[u64]) -> TObs {
     let c = w.query(&json!({"config": {}})).expect("config");
-    let nstages = match w.query(&json!({"stages": {}})) {
-        Ok(v) => v["stages"].as_array().map(|a| a.len()).unwrap_or(0) as u64,
-        Err(_) => 0,
-    };
+    let stages_v = w.query(&json!({"stages": {}})).ok();
+    let nstages = stages_v.as_ref().and_then(|v| v["stages"].as_array().map(|a| a.len())).unwrap_or(0) as u64;
+    let now = crate::chain::now(&w.app);
+    let active = stages_v.as_ref().and_then(|v| v["stages"].as_array().cloned()).and_then(|a| {
+        a.iter().position(|e| u64_of(&e["stage"]["start_time"]) <= now && now <= u64_of(&e["stage"]["end_time"])).map(|i| i as u64)
+    });
     let mut stages = vec![];
     for k in 0..nstages {
         let cnt = w
@@ -123,6 +183,12 @@ fn observe_t(w: &World, probes: &[u64]) -> TObs {
         beyond,
         probe,
         has: probes.iter().map(|a| (*a, has_member(w, *a))).collect(),
+        all: probes.iter().map(|a| (*a, all_stage_member_info(w, *a))).collect(),
+        member: probes.iter().map(|a| (*a, member_query(w, *a))).collect(),
+        active,
+        stage_beyond_ok: w.query(&json!({"stage": {"stage_id": nstages}})).is_ok(),
+        can: SENDER_PROBES.iter().map(|a| (*a, w.can_execute(*a))).collect(),
+        admins: w.admin_list(),
         ledger: w.ledger(),
     }
 }
@@ -228,7 +294,92 @@ impl Mon {
     }
 }
 
+impl Mon {
+    /// CanExecute answers true exactly for the stored admins; the admin list is what the
+    /// history says it must be (`want`: creation list, replaced by an accepted update_admins,
+    /// made immutable by an accepted freeze)
+    fn admin(&mut self, opl: &str, can: &[(u64, Option<bool>)], admins: &(Vec<u64>, bool), want: &(Vec<u64>, bool)) {
+        let k = self.kind.label();
+        if admins != want {
+            self.flag(format!("C11:{}:{}:admin-list-wrong", k, opl), format!("AdminList = {:?}, the calls accepted so far make it {:?}", admins, want));
+        }
+        for (a, r) in can {
+            if let Some(b) = r {
+                if *b != want.0.contains(a) {
+                    self.flag(format!("C11:{}:{}:can-execute-wrong", k, opl), format!("CanExecute({}) = {} with admins {:?}", name(*a), b, want.0));
+                }
+            }
+        }
+    }
+    /// AllStageMemberInfo: one entry per stage, is_member exactly for stored pairs (raw
+    /// storage), and for the flex kind the stored mint count
+    fn all_info(&mut self, opl: &str, w: &World, nstages: u64, all: &[(u64, Option<Vec<(u64, bool, u64)>>)]) {
+        let k = self.kind.label();
+        let raw = w.raw_members();
+        for (a, r) in all {
+            let Some(l) = r else { continue };
+            if l.len() as u64 != nstages || l.iter().enumerate().any(|(i, e)| e.0 != i as u64) {
+                self.flag(format!("C11:{}:{}:all-stage-info-shape", k, opl), format!("AllStageMemberInfo({}) lists stages {:?}, there are {}", name(*a), l.iter().map(|e| e.0).collect::<Vec<_>>(), nstages));
+            }
+            for (st, is_member, n) in l {
+                let stored = raw.iter().find(|e| e.0 as u64 == *st && e.1 == *a);
+                if *is_member != stored.is_some() {
+                    self.flag(format!("C11:{}:{}:all-stage-info-wrong", k, opl), format!("AllStageMemberInfo({}) says is_member = {} for stage {}, stored = {}", name(*a), is_member, st, stored.is_some()));
+                }
+                if self.kind == Kind::TieredFlex && *n != stored.map(|e| e.2 as u64).unwrap_or(0) {
+                    self.flag(format!("C11:{}:{}:all-stage-info-wrong", k, opl), format!("AllStageMemberInfo({}) reports {} mints for stage {}, stored {:?}", name(*a), n, st, stored.map(|e| e.2)));
+                }
+            }
+        }
+    }
+}
+impl Mon {
+    /// Member { member } of the flex whitelist answers exactly for stored members, with the stored count
+    fn member_flex(&mut self, opl: &str, w: &World, member: &[(u64, Option<u64>)]) {
+        if self.kind != Kind::Flex {
+            return;
+        }
+        let raw = w.raw_members();
+        for (a, r) in member {
+            let stored = raw.iter().find(|e| e.1 == *a).map(|e| e.2 as u64);
+            if *a >= FIRST_VALID && *r != stored {
+                self.flag(format!("C11:whitelist-flex:{}:member-query-wrong", opl), format!("Member({}) = {:?}, stored mint count {:?}", name(*a), r, stored));
+            }
+        }
+    }
+    /// Member { member } of the tiered-flex whitelist never reports a count that is stored in no stage
+    fn member_tiered(&mut self, opl: &str, w: &World, o: &TObs) {
+        let raw = w.raw_members();
+        for (a, r) in &o.member {
+            // the pair stored for the stage that is running now, if any
+            let stored = o.active.and_then(|k| raw.iter().find(|e| e.0 as u64 == k && e.1 == *a)).map(|e| e.2 as u64);
+            if self.kind == Kind::TieredFlex && *a >= FIRST_VALID && *r != stored {
+                self.flag(format!("C11:{}:{}:member-query-wrong", self.kind.label(), opl), format!("Member({}) = {:?}; running stage {:?} stores {:?}", name(*a), r, o.active, stored));
+            }
+        }
+        for (a, r) in &o.has {
+            let stored = o.active.map_or(false, |k| raw.iter().any(|e| e.0 as u64 == k && e.1 == *a));
+            if let Some(b) = r {
+                if *b != stored {
+                    self.flag(format!("C11:{}:{}:has-member-wrong", self.kind.label(), opl), format!("HasMember({}) = {}; running stage {:?}, stored there = {}", name(*a), b, o.active, stored));
+                }
+            }
+        }
+        if o.stage_beyond_ok {
+            self.flag(format!("C11:{}:{}:stage-beyond-answered", self.kind.label(), opl), format!("Stage {{ stage_id: {} }} answers although there are {} stages", o.nstages, o.nstages));
+        }
+    }
+}
+fn track_admins(want: &mut (Vec<u64>, bool), op: &Op) {
+    match op {
+        Op::UpdAdmins(l) => want.0 = l.clone(),
+        Op::Freeze => want.1 = false,
+        _ => {}
+    }
+}
+
 struct Outcome {
+    extra: Vec<String>,
     coq: String,
     evals: u64,
     viol: Option<(String, String)>,
@@ -326,6 +477,7 @@ fn run_pf(h: &History) -> Outcome {
             mon.flag(format!("C11:{}:instantiate:rejected-but-charged", kind.label()), format!("{:?}", l));
         }
         return Outcome {
+            extra: vec![],
             coq: format!("C11Fail {} {} {}", kind.coq(), env0, imsg),
             evals: 1,
             viol: mon.viol,
@@ -357,6 +509,9 @@ fn run_pf(h: &History) -> Outcome {
             }
         }
     };
+    let mut want_admins = (h.init.admins.clone(), h.init.mutable);
+    mon.admin("instantiate", &o0.can, &o0.admins, &want_admins);
+    mon.member_flex("instantiate", &w, &o0.member);
     enumeration_monitor(&mut mon, &w, "instantiate", o0.num, None);
     check_counts(&mut mon, "instantiate", &o0);
     mon.capacity("instantiate", o0.num, o0.limit, None);
@@ -373,6 +528,11 @@ fn run_pf(h: &History) -> Outcome {
         let ok = r.is_ok();
         let o = observe_pf(&w, &probes);
         enumeration_monitor(&mut mon, &w, op.kind_label(), o.num, None);
+        if ok {
+            track_admins(&mut want_admins, op);
+        }
+        mon.admin(op.kind_label(), &o.can, &o.admins, &want_admins);
+        mon.member_flex(op.kind_label(), &w, &o.member);
         let opl = op.kind_label();
         hist.push(format!("{}:{}:{}", kind.label(), opl, if ok { "ok" } else { "err" }));
         if ok && matches!(op, Op::Add(_) | Op::Remove(_) | Op::Increase(_)) {
@@ -435,6 +595,7 @@ fn run_pf(h: &History) -> Outcome {
         prev = o;
     }
     Outcome {
+        extra: vec![],
         coq: format!("C11Hist {} {} {} {} {}", kind.coq(), env0, imsg, o0.coq(), coq_list(&steps_coq)),
         evals,
         viol: mon.viol,
@@ -460,6 +621,7 @@ fn run_tiered(h: &History) -> Outcome {
             mon.flag(format!("C11:{}:instantiate:rejected-but-charged", kind.label()), format!("{:?}", l));
         }
         return Outcome {
+            extra: vec![],
             coq: format!("C11TFail {} {} {}", kind.coq(), env0, imsg),
             evals: 1,
             viol: mon.viol,
@@ -505,6 +667,10 @@ fn run_tiered(h: &History) -> Outcome {
             }
         }
     };
+    let mut want_admins = (h.init.admins.clone(), h.init.mutable);
+    mon.admin("instantiate", &o0.can, &o0.admins, &want_admins);
+    mon.all_info("instantiate", &w, o0.nstages, &o0.all);
+    mon.member_tiered("instantiate", &w, &o0);
     enumeration_monitor(&mut mon, &w, "instantiate", o0.num, Some(&o0.stages.iter().map(|s| s.0).collect::<Vec<_>>()));
     check_counts(&mut mon, "instantiate", &o0);
     mon.capacity("instantiate", o0.num, o0.limit, None);
@@ -521,6 +687,12 @@ fn run_tiered(h: &History) -> Outcome {
         let ok = r.is_ok();
         let o = observe_t(&w, &probes);
         enumeration_monitor(&mut mon, &w, op.kind_label(), o.num, Some(&o.stages.iter().map(|s| s.0).collect::<Vec<_>>()));
+        if ok {
+            track_admins(&mut want_admins, op);
+        }
+        mon.admin(op.kind_label(), &o.can, &o.admins, &want_admins);
+        mon.member_tiered(op.kind_label(), &w, &o);
+        mon.all_info(op.kind_label(), &w, o.nstages, &o.all);
         let opl = op.kind_label();
         hist.push(format!("{}:{}:{}", kind.label(), opl, if ok { "ok" } else { "err" }));
         if ok && matches!(op, Op::TAdd { .. } | Op::TRemove { .. } | Op::Increase(_) | Op::AddStage { .. } | Op::RemoveStage(_)) {
@@ -572,6 +744,7 @@ fn run_tiered(h: &History) -> Outcome {
         prev = o;
     }
     Outcome {
+        extra: vec![],
         coq: format!("C11THist {} {} {} {} {}", kind.coq(), env0, imsg, o0.coq(), coq_list(&steps_coq)),
         evals,
         viol: mon.viol,
@@ -586,9 +759,10 @@ fn run_imm(h: &History) -> Outcome {
     let mut mon = Mon { kind: Kind::Immutable, viol: None };
     let ms: Vec<u64> = h.init.members.first().map(|l| l.iter().map(|m| m.0).collect()).unwrap_or_default();
     let r = w.instantiate(&h.init);
-    let hist = vec![format!("whitelist-immutable:instantiate:{}", if r.is_ok() { "ok" } else { "err" })];
+    let mut hist = vec![format!("whitelist-immutable:instantiate:{}", if r.is_ok() { "ok" } else { "err" })];
     if r.is_err() {
         return Outcome {
+            extra: vec![],
             coq: format!("C11ImmFail {} {}", coq_funds(&h.init.funds), coq_ns(&ms)),
             evals: 1,
             viol: None,
@@ -621,6 +795,53 @@ fn run_imm(h: &History) -> Outcome {
             mon.flag("C11:whitelist-immutable:instantiate:includes-address-wrong".into(), format!("IncludesAddress({}) = {} but stored = {}", name(*a), b, stored.contains(a)));
         }
     }
+    // Config / Admin / PerAddressLimit report what creation was given; there is no execute
+    // message: whatever is sent is rejected and changes nothing
+    let cfg = w.query(&json!({"config": {}})).ok();
+    let cfg_admin = cfg.as_ref().map(|v| id_of(v["config"]["admin"].as_str().unwrap_or(""))).unwrap_or(0);
+    let cfg_pal = cfg.as_ref().and_then(|v| v["config"]["per_address_limit"].as_u64()).unwrap_or(u64::MAX);
+    let cfg_bps = cfg.as_ref().and_then(|v| v["config"]["mint_discount_bps"].as_u64());
+    let admin_q = w.query(&json!({"admin": {}})).ok().map(|v| id_of(v.as_str().unwrap_or(""))).unwrap_or(0);
+    let pal_q = w.query(&json!({"per_address_limit": {}})).ok().and_then(|v| v.as_u64()).unwrap_or(u64::MAX);
+    if cfg_admin != h.init.sender || admin_q != h.init.sender || cfg_pal != h.init.pal as u64 || pal_q != h.init.pal as u64 || cfg_bps != h.init.whale.map(|x| x as u64) {
+        mon.flag("C11:whitelist-immutable:instantiate:config-wrong".into(), format!("Config = {:?}, Admin = {}, PerAddressLimit = {}; created by {} with limit {} discount {:?}", cfg, name(admin_q), pal_q, name(h.init.sender), h.init.pal, h.init.whale));
+    }
+    let snapshot = |w: &World| {
+        (w.digest(), w.query(&json!({"address_count": {}})).ok(), w.query(&json!({"config": {}})).ok(), w.query(&json!({"admin": {}})).ok(), w.raw_members(), w.ledger())
+    };
+    let before = snapshot(&w);
+    let mut execs = vec![];
+    for (sender, msg) in [
+        (60u64, json!({})),
+        (60, json!({"add_members": {"to_add": [name(150)]}})),
+        (61, json!({"update_admin": {"admin": name(61)}})),
+        (60, json!({"remove_members": {"to_remove": names_of(&ms)}})),
+        (62, json!("freeze")),
+    ] {
+        let r = crate::chain::exec(&mut w.app, &name(sender), &addr, &msg, &[]);
+        if r.is_ok() {
+            mon.flag("C11:whitelist-immutable:execute:accepted".into(), format!("execute {} was accepted", msg));
+        }
+        execs.push(r.is_ok());
+        hist.push(format!("whitelist-immutable:execute:{}", if r.is_ok() { "ok" } else { "err" }));
+        if snapshot(&w) != before {
+            mon.flag("C11:whitelist-immutable:execute:changed-state".into(), format!("execute {} changed storage, a query answer or a balance", msg));
+        }
+    }
+    let extra = vec![format!(
+        "C11ImmCfg {} {} {} {} {} ({}, {}, {}) {} {} {}",
+        h.init.sender,
+        h.init.pal,
+        coq_opt32(h.init.whale),
+        coq_funds(&h.init.funds),
+        coq_ns(&ms),
+        cfg_admin,
+        cfg_pal,
+        coq_opt_n(cfg_bps),
+        admin_q,
+        pal_q,
+        coq_list(&execs.iter().map(|b| coq_bool(*b).to_string()).collect::<Vec<_>>())
+    )];
     let coq = format!(
         "C11Imm {} {} {} {} {}",
         coq_funds(&h.init.funds),
@@ -629,9 +850,12 @@ fn run_imm(h: &History) -> Outcome {
         coq_ns(&stored),
         coq_list(&probes.iter().map(|(a, b)| format!("({}, {})", a, coq_bool(*b))).collect::<Vec<_>>())
     );
-    Outcome { coq, evals: 1 + probes.len() as u64, viol: mon.viol, hist, nontrivial: true, sample: format!("{:?} -> count {} stored {:?}", ms, count, stored) }
+    Outcome { extra, coq, evals: 6 + probes.len() as u64, viol: mon.viol, hist, nontrivial: true, sample: format!("{:?} -> count {} stored {:?}", ms, count, stored) }
 }
 
+fn names_of(ids: &[u64]) -> Vec<String> {
+    ids.iter().map(|i| name(*i)).collect()
+}
 fn run_history(h: &History) -> Outcome {
     match h.init.kind {
         Kind::Plain | Kind::Flex => run_pf(h),
@@ -830,11 +1054,62 @@ fn corpus() -> Vec<History> {
             v.push(History { init: i, steps: vec![call(T0 + 1, 60, add(k, 0, vec![(101, 99)]))] });
         }
     }
+    // add_stage after remove_stage of a stage that is not the last one and has members,
+    // re-adding the same addresses to the freed stage ids (counts are checked after each)
+    for k in [Kind::Tiered, Kind::TieredFlex] {
+        v.push(History {
+            init: t_init(k, vec![ones(&[100, 101]), ones(&[101, 102, 103]), ones(&[103, 104])], 3, 20),
+            steps: vec![
+                call(T0 + 1, 60, Op::RemoveStage(1)),
+                call(T0 + 2, 60, Op::AddStage { stage: stage(1), ms: vec![(101, 2), (102, 1), (103, 1), (102, 3)] }),
+                call(T0 + 3, 60, Op::AddStage { stage: stage(2), ms: vec![(103, 1), (104, 2), (104, 1)] }),
+                call(T0 + 4, 60, Op::RemoveStage(0)),
+                call(T0 + 5, 60, Op::AddStage { stage: stage(0), ms: vec![(100, 1), (101, 1), (100, 4), (103, 1)] }),
+                call(T0 + 6, 60, add(k, 0, ones(&[100, 103, 105]))),
+            ],
+        });
+    }
+    // admin list: CanExecute before and after update_admins / freeze, by every role
+    for k in LIST_KINDS {
+        v.push(History {
+            init: init_for(k, ones(&[100]), 5),
+            steps: vec![
+                call(T0 + 1, 62, Op::UpdAdmins(vec![62])),
+                call(T0 + 2, 60, Op::UpdAdmins(vec![61, 62])),
+                call(T0 + 3, 60, add(k, 0, ones(&[101]))),
+                call(T0 + 4, 62, add(k, 0, ones(&[102]))),
+                call(T0 + 5, 62, Op::UpdAdmins(vec![62, 50])),
+                call(T0 + 6, 61, Op::UpdAdmins(vec![])),
+                call(T0 + 7, 61, add(k, 0, ones(&[103]))),
+            ],
+        });
+        v.push(History {
+            init: init_for(k, ones(&[100]), 5),
+            steps: vec![
+                call(T0 + 1, 62, Op::Freeze),
+                call(T0 + 2, 61, Op::Freeze),
+                call(T0 + 3, 60, Op::UpdAdmins(vec![62])),
+                call(T0 + 4, 60, Op::Freeze),
+                call(T0 + 5, 60, add(k, 0, ones(&[101]))),
+            ],
+        });
+        let mut i = init_for(k, ones(&[100]), 5);
+        i.mutable = false;
+        i.admins = vec![61];
+        v.push(History { init: i, steps: vec![call(T0 + 1, 61, Op::UpdAdmins(vec![60])), call(T0 + 2, 61, add(k, 0, ones(&[101]))), call(T0 + 3, 60, add(k, 0, ones(&[102])))] });
+    }
     // whitelist-immutable
     v.push(History { init: imm_init(vec![100, 101, 100, 102, 101], vec![]), steps: vec![] });
     v.push(History { init: imm_init(vec![], vec![]), steps: vec![] });
     v.push(History { init: imm_init(vec![100], native(1)), steps: vec![] });
     v.push(History { init: imm_init(vec![52, 50, 50, 60, 100], vec![]), steps: vec![] });
+    for (pal, bps, sender) in [(0u32, None, 60u64), (1, Some(0u32), 61), (7, Some(500), 62), (u32::MAX, Some(10_000), 60)] {
+        let mut i = imm_init(vec![100, 101], vec![]);
+        i.pal = pal;
+        i.whale = bps;
+        i.sender = sender;
+        v.push(History { init: i, steps: vec![] });
+    }
     v
 }
 
@@ -909,6 +1184,67 @@ fn probes() -> Vec<History> {
         for now in [T0 + 100 * S - 1, T0 + 100 * S, T0 + 100 * S + 1] {
             v.push(History { init: init_for(k, ones(&[100, 101]), 5), steps: vec![call(now, 60, remove(k, 0, vec![100])), call(now, 60, add(k, 0, ones(&[102])))] });
         }
+    }
+    // per_address_limit guard (1 ..= 30) wherever a kind has it: plain instantiate; tiered
+    // stages at instantiate, add_stage and update_stage_config (flex kinds carry no such field)
+    for pal in [0u32, 1, 2, 29, 30, 31] {
+        for k in LIST_KINDS {
+            let mut i = init_for(k, ones(&[100]), 5);
+            i.pal = pal;
+            for st in i.stages.iter_mut() {
+                st.pal = pal;
+            }
+            v.push(History { init: i, steps: vec![call(T0 + 1, 60, add(k, 0, ones(&[101])))] });
+        }
+        for k in [Kind::Tiered, Kind::TieredFlex] {
+            let mut st = stage(1);
+            st.pal = pal;
+            v.push(History {
+                init: t_init(k, vec![ones(&[100])], 1, 5),
+                steps: vec![
+                    call(T0 + 1, 60, Op::UpdStage { stage: 0, start: None, end: None, pal: Some(pal) }),
+                    call(T0 + 2, 60, Op::AddStage { stage: st, ms: ones(&[101]) }),
+                    call(T0 + 3, 60, add(k, 1, ones(&[102]))),
+                ],
+            });
+        }
+    }
+    // stage-list shapes the contracts refuse (the C11 model carries validate_stages for the
+    // ok/err of instantiate, add_stage and update_stage_config): none, reversed or empty
+    // window, overlap, touching (allowed), different denoms; whale cap in add_stage
+    for k in [Kind::Tiered, Kind::TieredFlex] {
+        v.push(History { init: t_init(k, vec![], 0, 5), steps: vec![] });
+        let shapes: Vec<(u64, u64, u64)> = vec![(200, 200, 0), (300, 200, 0), (150, 250, 0), (199, 300, 0), (200, 300, 0), (200, 300, 1)];
+        for (st, en, denom) in shapes {
+            let bad = StageSpec { start: T0 + st * S, end: T0 + en * S, pal: 2, denom };
+            let mut i = t_init(k, vec![ones(&[100]), ones(&[101])], 1, 5);
+            i.stages.push(bad.clone());
+            v.push(History { init: i, steps: vec![] });
+            v.push(History {
+                init: t_init(k, vec![ones(&[100])], 1, 5),
+                steps: vec![
+                    call(T0 + 1, 60, Op::AddStage { stage: bad.clone(), ms: ones(&[101]) }),
+                    call(T0 + 2, 60, Op::UpdStage { stage: 0, start: Some(bad.start), end: Some(bad.end), pal: None }),
+                    call(T0 + 3, 60, add(k, 0, ones(&[102]))),
+                ],
+            });
+        }
+        for (whale, cnt) in [(11u32, 11u32), (11, 12)] {
+            let mut i = t_init(k, vec![ones(&[100])], 1, 10);
+            i.whale = Some(whale);
+            v.push(History { init: i, steps: vec![call(T0 + 1, 60, Op::AddStage { stage: stage(1), ms: vec![(101, cnt), (102, 1)] }), call(T0 + 2, 60, add(k, 1, vec![(103, 99)]))] });
+        }
+        // membership answers while a stage is running (HasMember / Member use the active stage)
+        v.push(History {
+            init: t_init(k, vec![vec![(100, 2), (101, 1)], vec![(101, 3), (102, 1)]], 2, 10),
+            steps: vec![
+                call(T0 + 100 * S, 60, add(k, 1, vec![(103, 4)])),
+                call(T0 + 200 * S, 60, add(k, 1, vec![(104, 5)])),
+                call(T0 + 200 * S + 1, 60, add(k, 0, vec![(105, 6)])),
+                call(T0 + 300 * S, 60, add(k, 1, vec![(106, 1)])),
+                call(T0 + 300 * S + 1, 60, add(k, 1, vec![(107, 1)])),
+            ],
+        });
     }
     // tiered: stage bookkeeping guards
     for k in [Kind::Tiered, Kind::TieredFlex] {
@@ -1278,6 +1614,7 @@ pub fn run(a: &Args) {
             rep.samples.push(json!({"history": format!("{:?} + {} steps", h.init.kind, h.steps.len()), "impl_output": o.sample}));
         }
         coq_cases.push(o.coq);
+        coq_cases.extend(o.extra);
     }
     rep.distinct_nontrivial = distinct_h.len() as u64;
     rep.rule = "histories on the real whitelist, whitelist-flex, tiered-whitelist, tiered-whitelist-flex and whitelist-immutable contracts: corpus (one replay per repaired defect), guard-boundary probes per kind (limits and fees at 999/1000/1001/.../MAX/MAX+1, count vs limit, sender roles, stage bookkeeping), random histories, malformed funds and addresses; evaluations = instantiate + calls. Non-trivial = distinct history with at least one accepted add / remove / stage / increase call (or an accepted immutable instantiate).".into();
